@@ -146,6 +146,8 @@ func Gen(r *rand.Rand, o GenOpts) *RuleSet {
 		}
 	}
 	usedSal := map[int64]bool{}
+	// one wide-salience rule set in eight uses time stamps as saliences: all far above 2^53, a few units apart
+	stamps := o.WideSal && !o.UniqueSal && r.Intn(8) == 0
 	for i := 0; i < n; i++ {
 		ru := &Rule{ID: o.IDBase + i}
 		ru.Name = o.NamePrefix + nameForms[r.Intn(len(nameForms))](i, r)
@@ -163,6 +165,9 @@ func Gen(r *rand.Rand, o GenOpts) *RuleSet {
 			for usedSal[ru.Sal] {
 				ru.Sal = int64(r.Intn(41) - 20)
 			}
+		}
+		if stamps {
+			ru.HasSal, ru.Sal = true, 1700000000000000000+int64(r.Intn(12))
 		}
 		usedSal[ru.Sal] = true
 		if r.Intn(3) == 0 {
